@@ -34,6 +34,9 @@ type Config struct {
 	ResetOnEmptyInput bool `json:"reset_on_empty_input,omitempty"`
 	// First installs the application's "_first" function with Engine.WithFirst
 	First bool `json:"first,omitempty"`
+	// PersisterContent: the per-request client creates the state and cache objects itself and hands them to the
+	// persister (Persister.WithContent) instead of leaving that to the engine
+	PersisterContent bool `json:"persister_content,omitempty"`
 }
 
 func (c Config) Engine() engine.Config {
@@ -387,6 +390,13 @@ func (d *PerRequest) Request(input []byte) *Obs {
 	var pe *persist.Persister
 	pv, stack := vk.Guard(func() {
 		pe = persist.NewPersister(store)
+		if d.Cfg.PersisterContent {
+			ca := cache.NewCache()
+			if d.Cfg.CacheSize > 0 {
+				ca = ca.WithCacheSize(d.Cfg.CacheSize)
+			}
+			pe = pe.WithContent(state.NewState(d.Cfg.FlagCount), ca)
+		}
 		en := engine.NewEngine(d.Cfg.Engine(), d.Res).WithPersister(pe)
 		if d.Cfg.First && d.Res.App.Funcs["_first"] != nil {
 			en = en.WithFirst(d.Res.FirstFunc())
